@@ -18,6 +18,9 @@ from emsarray.types import Pathish
 
 T = TypeVar('T')
 
+#: The rounding precision used when writing Well Known Text.
+WKT_ROUNDING_PRECISION = 100
+
 
 class _dumpable_iterator(Generic[T], list):
     """
@@ -43,17 +46,17 @@ class _dumpable_iterator(Generic[T], list):
         raise NotImplementedError("Can't get the length of a _dumpable_iterator")
 
 
-#: The number of decimal places kept for exported coordinates.
-#: The geojson library rounds coordinates to six decimal places by default,
-#: which moves the vertices of the exported cells.
-#: Seventeen decimal places is enough to leave any double precision value unchanged.
-GEOJSON_PRECISION = 17
-
-
-def _to_geojson_polygon(polygon: shapely.Polygon) -> geojson.Polygon:
-    """Convert a shapely Polygon to a geojson Polygon without rounding its coordinates."""
-    coordinates = polygon.__geo_interface__['coordinates']
-    return geojson.Polygon(coordinates, precision=GEOJSON_PRECISION)
+def _to_geojson_feature(polygon: shapely.Polygon, properties: dict) -> geojson.Feature:
+    """
+    Make a geojson Feature for a polygon without rounding its coordinates.
+    The geojson library rounds the coordinates of every geometry it constructs
+    to a fixed number of decimal places, six by default,
+    which moves the vertices of the exported cells.
+    The geometry mapping is attached to the feature as is instead.
+    """
+    feature = geojson.Feature(properties=properties)
+    feature['geometry'] = polygon.__geo_interface__
+    return feature
 
 
 def to_geojson(
@@ -85,7 +88,7 @@ def to_geojson(
     :func:`.write_geojson`
     """
     return geojson.FeatureCollection(_dumpable_iterator(
-        geojson.Feature(geometry=_to_geojson_polygon(polygon), properties={
+        _to_geojson_feature(polygon, {
             'linear_index': i,
             'index': dataset.ems.wind_index(i),
         })
@@ -219,9 +222,10 @@ def write_wkt(
         The path where the geometry should be written to.
     """
     with open(path, 'w') as f:
-        # rounding_precision=-1 writes the coordinates in full,
-        # the default rounds them to six decimal places.
-        f.write(shapely.to_wkt(_to_multipolygon(dataset), rounding_precision=-1))
+        # The default rounding precision rounds coordinates to six decimal places.
+        # A rounding precision larger than any double needs makes the writer
+        # emit the shortest text that reads back as the same number.
+        f.write(shapely.to_wkt(_to_multipolygon(dataset), rounding_precision=WKT_ROUNDING_PRECISION))
 
 
 def write_wkb(
